@@ -11,6 +11,11 @@ done
 for d in seeded/*/; do
   n=$(basename $d); prop=${n%%-*}
   patch=$d/patch.diff; [ -f $d/patch.ported.diff ] && patch=$d/patch.ported.diff
-  extra=""; [ $n = C11-B ] && prop=C03; [ $n = C10-B ] && { echo "== $n: not alarmed on purpose (see meta.json)"; continue; }
+  [ $n = C10-B ] && { echo "== $n: not alarmed on purpose (see meta.json)"; continue; }
+  # changes that break another property than the one they were written for (DESIGN.md 13.1, 13.2)
+  case $n in
+    C11-B) prop=C03;; C02-R2B) prop=C15;; C04-R2B) prop=C16;; C05-R2A) prop=C03;; C10-R2B) prop=C14;;
+    C11-R2A|C16-R2A|C16-R2B) prop=C05;;
+  esac
   echo "== $n -> $prop"; tools/trymut.sh $patch $prop 2>&1 | tail -1 | cut -c1-200
 done
